@@ -117,7 +117,8 @@ def jobs(tier, seed):
         if q:
             nmax = min(nmax, {32: 5, 16: 9, 8: 17, 4: 17}[bs[0]])
         for op in ("unpack", "getint", "getlist", "window"):
-            out.append(dict(bs=bs, nmax=nmax, op=op, dtype="uint64", m=2 if q else 3, nmode="edges" if (q or bs[0] < 4) else "all"))
+            # position lists of three entries only for b >= 8 (the select chains over 34..130 cells times three positions time out below)
+            out.append(dict(bs=bs, nmax=nmax, op=op, dtype="uint64", m=3 if (not q and bs[0] >= 8) else 2, nmode="edges" if (q or bs[0] < 4) else "all"))
     for dt in ("uint8", "uint16", "int32", "int64"):
         out.append(dict(bs=[4, 8], nmax=9 if q else 17, op="unpack", dtype=dt))
         out.append(dict(bs=[4], nmax=17, op="window", dtype=dt, nmode="edges"))
